@@ -650,7 +650,8 @@ def gen_viewer_op(world, rng):
 
         def call_many():
             for _ in range(k):
-                dc.new_subset_group(subset_state=d.main_components[0] > rng.randint(0, 5), label=world.fresh("g"))
+                nums = [c for c in d.main_components if attr_kind(d, c) == "numerical"] or [d.pixel_component_ids[0]]
+                dc.new_subset_group(subset_state=nums[0] > rng.randint(0, 5), label=world.fresh("g"))
         return "new_group:many", call_many, None
     if name == "add_link" and len(in_dc) >= 2:
         from glue.core.link_helpers import LinkSame
@@ -674,7 +675,10 @@ def gen_viewer_op(world, rng):
             return "select:" + ("x_att_world_to_current_y" if which == "x" else "y_att_world_to_current_x"), call_clash, None
 
     def subset_state_for(d):
-        c = rng.choice([d.id["x"], d.id["y"]] if len(d.main_components) >= 2 and _has(d, "x") and _has(d, "y") else d.main_components[:1])
+        # an inequality on a *numerical* stored attribute (comparing a categorical column with a number is not a
+        # valid selection)
+        nums = [c for c in d.main_components if attr_kind(d, c) == "numerical"]
+        c = rng.choice(nums) if nums else d.pixel_component_ids[0]
         return c > rng.randint(0, 8)
 
     if world.kind == "image" and name in ("add_data", "add_subset"):
@@ -772,7 +776,7 @@ def gen_viewer_op(world, rng):
             except ImportError:
                 kind = "num"
         if kind == "dtype":
-            dt = rng.choice(["float32", ">f8", "uint8", "int8", "bool", "object_strings", "U5"])
+            dt = rng.choice(["float32", ">f8", "uint8", "int8", "bool", "U5"])   # object-dtype text: kept out of the domain (sessions pickle it and refuse to load; a C02/C12 edge, not a viewer-mirror question)
             if dt in ("object_strings", "U5") and d.ndim != 1:
                 dt = "float32"
             if dt == "object_strings":
